@@ -22,6 +22,7 @@ import os, random, re, subprocess
 import orch, buildlib, proto
 from orch import log, VERIF
 
+LIM_STR, LIM_WSTR = 4096, 1024        # RSIZE_MAX_STR / RSIZE_MAX_WSTR of this configuration (gens.LIM)
 BUF = ["sprintf_s", "snprintf_s", "vsprintf_s", "vsnprintf_s"]
 WBUF = ["swprintf_s", "snwprintf_s", "vswprintf_s", "vsnwprintf_s"]
 
@@ -92,6 +93,8 @@ def oracle(pid, c, dc, slack):
         return out
     if sig or ret is None:
         return out
+    if pid in ("C03", "C04", "C08") and not (0 < c.dmax <= LIM_STR):
+        return out            # "dest/dmax themselves usable": within the RSIZE limit (an over-limit dmax is rejected untouched)
     if pid == "C03":
         if c.dmax > 0 and cells and 0 not in cells:
             out.append(("%s:unterminated:ret=%s" % (fn, "dmax" if ret == c.dmax else "neg" if ret < 0 else "n"), "ret=%d dmax=%d dest=%r" % (ret, c.dmax, cells[:24])))
@@ -145,6 +148,8 @@ def woracle(pid, fn, dm, dc, slack):
             out.append(("%s:write@dest-" % fn, "cells in front of dest changed"))
         return out
     if sig or ret is None:
+        return out
+    if pid in ("C03", "C04", "C08") and not (0 < dm <= LIM_WSTR):
         return out
     if pid == "C03":
         if dm > 0 and cells and 0 not in cells:
